@@ -265,6 +265,7 @@ pub fn histories(cfg: &CfgSpec, tier: &str) -> Vec<Case> {
         vec![resume(), ok(stake(P::U(1), MintTo::None, vec![])), ok(rewards()), ok(unstake(1)), ok(stake(P::U(0), MintTo::None, vec![])), ok(Op::UnstakeMinted { sender: P::U(0) }), H::Advance(DAY), ok(Op::Submit { sender: P::U(2) })],
     );
     // admin re-bases the totals with LST = 0 < staked: the next stake sweeps stake the contract does not hold
+    add("resume-sweep-roundtrip", vec![ok(Op::ResumeStaked { sender: P::Admin }), ok(stake(P::U(0), MintTo::None, vec![])), ok(Op::UnstakeMinted { sender: P::U(0) }), H::Advance(DAY), ok(Op::Submit { sender: P::U(2) })]);
     add("resume-sweep", vec![ok(Op::ResumeStaked { sender: P::Admin }), ok(stake(P::U(0), MintTo::None, vec![])), H::Do(Op::FeeWithdraw { sender: P::Admin }, cfg.treasury)]);
     // fault grid (C07 quantifier): every assignment of {success, error ack, timeout} to the three transfers of
     // "stake to the staker" + "stake with native-chain delivery", delivered in several orders, followed by the
